@@ -182,6 +182,12 @@ func c04Routes() []c04Route {
 		b := []byte(`<Delete xmlns="http://s3.amazonaws.com/doc/2006-03-01/"><Object><Key>` + xmlEsc(v) + `</Key></Object></Delete>`)
 		return s3c.Req{Method: "POST", Path: "/" + c04BktA, RawQuery: "delete=", Body: b, Headers: []s3c.KV{{K: "Content-MD5", V: s3c.MD5B64(b)}}}
 	})
+	// the same with two harmless keys (that do not exist) in front of it: a batch is
+	// judged key by key, whatever comes first
+	add("key", "object-delete", "delete-objects-mixed", "xml", func(w *c04World, v string) s3c.Req {
+		b := []byte(`<Delete xmlns="http://s3.amazonaws.com/doc/2006-03-01/"><Object><Key>c04-absent-1</Key></Object><Object><Key>c04-absent-2</Key></Object><Object><Key>` + xmlEsc(v) + `</Key></Object></Delete>`)
+		return s3c.Req{Method: "POST", Path: "/" + c04BktA, RawQuery: "delete=", Body: b, Headers: []s3c.KV{{K: "Content-MD5", V: s3c.MD5B64(b)}}}
+	})
 
 	// ---- versionId (object K) ----
 	vq := func(name, method, sub string, body []byte, hdrs ...s3c.KV) {
